@@ -24,6 +24,7 @@ type FOp struct {
 	Key    int         `json:"key,omitempty"`
 	Val    model.Bytes `json:"val,omitempty"`
 	TS     uint64      `json:"ts,omitempty"`
+	XFlag  byte        `json:"xflag,omitempty"` // native: application-local header flag bits
 	IntKey bool        `json:"int_key,omitempty"` // put/del: in the integer-key DBI instead
 	Blob   int         `json:"blob,omitempty"`    // index into the blobs stored so far (mod count)
 	From   int         `json:"from,omitempty"`    // merge: if > 0, the newest blob of instance From-1 instead
@@ -81,7 +82,7 @@ func runHistory(c HistCase, o *vcore.Obs) (*Fleet, *histStats, error) {
 				key = make([]byte, 4)
 				binary.LittleEndian.PutUint32(key, []uint32{0, 1, 255, 256, 70000, 1 << 31}[op.Key%6])
 			}
-			ch := Change{DBI: dbi, Key: key, Del: op.Kind == "del", Val: op.Val, TS: op.TS}
+			ch := Change{DBI: dbi, Key: key, Del: op.Kind == "del", Val: op.Val, TS: op.TS, XFlag: op.XFlag}
 			if op.Held && c.Native {
 				if err := f.AppHold(i, []Change{ch}); err != nil {
 					return f, st, fmt.Errorf("%s: harness: %v", step, err)
@@ -326,6 +327,9 @@ func genHist(t *rapid.T, delHeavy bool, maxOps int) HistCase {
 				default:
 					op.TS = 1_700_000_000_000_000_000 + uint64(rapid.IntRange(0, 5).Draw(t, "tsr"))
 				}
+			}
+			if c.Native && rapid.IntRange(0, 7).Draw(t, "xflag") == 0 {
+				op.XFlag = rapid.SampledFrom([]byte{0x40, 0x02, 0xfe}).Draw(t, "xflagv")
 			}
 			if op.Kind == "put" {
 				op.Val = rapid.SampledFrom([]model.Bytes{[]byte("v1"), []byte("v2"), []byte("a"), {}, {0}, []byte("zz"),
